@@ -348,14 +348,17 @@ func (g *gen) num() uint64 {
 }
 
 func (g *gen) bytesLen() int {
-	ls := []int{0, 1, 2, 7, 8, 9, 15, 16, 17, 255, 256, 257}
+	ls := []int{0, 1, 2, 7, 8, 9, 15, 16, 17, 31, 32, 33, 55, 56, 57, 63, 64, 65, 71, 72, 73, 127, 128, 129, 255, 256, 257, 511, 512, 513, 1023, 1024, 1025}
 	if g.big {
 		ls = append(ls, 4095, 4096, 4097, 65535, 65536, 65537, 1<<20+3)
 	} else {
 		ls = append(ls, 4096, 4097)
 	}
-	if g.r.Intn(2) == 0 {
+	switch g.r.Intn(3) {
+	case 0:
 		return g.r.Intn(40)
+	case 1:
+		return g.r.Intn(160) // every small length: inline buffers and fast paths have their edges somewhere here
 	}
 	return hx.Pick(g.r, ls)
 }
@@ -721,6 +724,59 @@ func main() {
 				rep.Fail("client-request-rejected-by-server:"+mode, fmt.Sprintf("the dial request of mode %s has type %d with %d fields, deployed servers expect type %d with %d fields", mode, typ, len(vals), want, len(kinds[reqOf[want]])), []string{op})
 			}
 			p.Close(2 * time.Second)
+		}
+	}
+
+	// what the deployed error codes MEAN: end of stream is code 10 on the wire, in both directions
+	if f.Replay == "" || (len(ops) > 0 && strings.HasPrefix(ops[0], "eofcode")) {
+		if f.Replay != "" {
+			ops = nil
+		}
+		op := "eofcode"
+		rep.Case(op, true)
+		rep.Count("eofcode")
+		if p, err := snix.NewPeer(); err == nil {
+			type rr struct {
+				n   int
+				err error
+			}
+			done := make(chan rr, 1)
+			go func() {
+				n, err := p.Client.Tunnel(7).Read(make([]byte, 64))
+				done <- rr{n, err}
+			}()
+			if r, ok := p.NextReq(3 * time.Second); ok {
+				// the deployed encoding of readResponse{bytes: "", err: {10, "eof"}}
+				p.Send(snix.ReplyFrame(r.ID, 4, 0, hx.UnHex("00000000000000000a000000000000000300000000000000656f66")))
+				select {
+				case x := <-done:
+					if x.err != io.EOF || x.n != 0 {
+						rep.Fail("deployed-eof-code-not-eof", fmt.Sprintf("a read reply carrying the deployed end-of-stream code 10 makes tunnel.Read return (%d, %v) instead of (0, io.EOF)", x.n, x.err), []string{op})
+					}
+				case <-time.After(3 * time.Second):
+					rep.Fail("deployed-eof-code-not-eof", "tunnel.Read did not return on a reply carrying the end-of-stream code", []string{op})
+				}
+			}
+			p.Close(2 * time.Second)
+		}
+		if fp, err := snix.NewFakeProxy(); err == nil {
+			go func() {
+				if c, err := fp.EP.Accept(); err == nil {
+					c.Close() // the application ends the stream at once
+				}
+			}()
+			fp.Request(1, 2, nil)
+			if r, ok := fp.NextReply(3 * time.Second); ok && len(r) >= 18 {
+				fp.Request(2, 4, append(append([]byte{}, r[10:18]...), snix.U64(64)...))
+				if r2, ok := fp.NextReply(3 * time.Second); ok && len(r2) >= 26 {
+					code := binary.LittleEndian.Uint64(r2[18:26])
+					if code != 10 {
+						rep.Fail("eof-sent-with-other-code", fmt.Sprintf("the endpoint reports the end of a stream with error code %d; deployed proxies turn only code 10 into io.EOF", code), []string{op})
+					}
+				}
+			}
+			fp.EP.Close()
+			fp.Close()
 		}
 	}
 
